@@ -597,6 +597,7 @@ func checkHashTag(c *Ctx, fn *ssa.Function) {
 		pos   token.Pos
 	}
 	var scans []*scan
+	var lastScan *ssa.Call // a bytes.LastIndexByte scan: never the position the specification names
 	loops := map[*ssa.BasicBlock]*firstIdxLoop{}
 	for _, h := range loopHeaders(fn) {
 		fl, why := recogniseFirstIdx(h, prm)
@@ -633,6 +634,13 @@ func checkHashTag(c *Ctx, fn *ssa.Function) {
 		}
 		call, _ := in.(*ssa.Call)
 		g := calleeFn(cc)
+		if call != nil && g != nil && g.Pkg != nil && g.Pkg.Pkg.Path() == "bytes" && g.Name() == "LastIndexByte" && len(cc.Args) == 2 {
+			if ch, isC := constInt(cc.Args[1]); isC {
+				lastScan = call
+				scans = append(scans, &scan{call: call, ch: ch, blk: b, pos: call.Pos()})
+				return
+			}
+		}
 		if call != nil && g != nil && g.Pkg != nil && g.Pkg.Pkg.Path() == "bytes" && g.Name() == "IndexByte" && len(cc.Args) == 2 {
 			ch, isC := constInt(cc.Args[1])
 			var start ssa.Value
@@ -674,6 +682,14 @@ func checkHashTag(c *Ctx, fn *ssa.Function) {
 	}
 	c.Check(s1.ch == '{' && s1.start == nil, "O4", "first scan", s1.pos, "i = first index of '{' from 0", "first scan is not `first '{' from index 0`")
 	c.Check(s2.ch == '}', "O4", "second scan byte", s2.pos, "second scan looks for '}'", "second scan does not look for '}'")
+	if lastScan != nil {
+		c.Fail("O4", "scans take the first occurrence", lastScan.Pos(), "a brace position is taken with bytes.LastIndexByte: the specification uses the first '{' and the first '}' after it - a key with two '}' after its '{' ({user1000}.{followers}) is hashed by a different tag")
+		return
+	}
+	if s2.call != nil && s2.start == nil {
+		c.Fail("O4", "second scan starts after the first '{'", s2.pos, "the closing brace is searched from the start of the key, not from the byte after the first '{': a '}' in front of the '{' (a}b{tag}c) ends the search there and the key is hashed whole instead of by its tag")
+		return
+	}
 	c.Check(extra == "", "O4", "bytes touched only by the two scans", fn.Pos(), "no other element read or call", "the key bytes are read outside the two scans ("+extra+"): behaviour no longer depends only on the ordering of the two positions")
 
 	// affine forms over I (first '{', n if none), J (first '}' after I, n if none), n, K (second loop's index variable)
